@@ -425,6 +425,6 @@ pub fn run(ctx: &mut Ctx) {
         .collect();
     ctx.enumerate("tiny-blocks", false, tiny, run_batch);
     ctx.campaign("batching-big", CampaignCfg::new(t.pick(320, 12_000)).shards(16).shrink_iters(300), || batch_strategy(14, true), run_batch);
-    ctx.campaign("responses-between-nodes", CampaignCfg::new(t.pick(480, 10_000)).shards(16).shrink_iters(30), super::c20_responses::strategy, super::c20_responses::run_case);
+    ctx.campaign("responses-between-nodes", CampaignCfg::new(t.pick(3_000, 60_000)).shards(16).shrink_iters(30), super::c20_responses::strategy, super::c20_responses::run_case);
     ctx.campaign("inbound-messages", CampaignCfg::new(t.pick(800, 20_000)).shards(16).shrink_iters(40), super::c20_nodes::strategy, super::c20_nodes::run_case);
 }
